@@ -41,6 +41,7 @@ type Solver struct {
 	ndefs     int
 	Log       io.Writer
 	LastError string
+	Broken    bool // the context reported 'canceled' (resource limit hit): it must be restarted
 	aux       *Solver // clean context for model queries (get-value is linear in the number of definitions)
 	ModelQ    int
 	scopes    [][]int // ids defined per open scope (popped definitions must be re-emitted)
@@ -263,6 +264,7 @@ func (s *Solver) Close() {
 // Restart drops all definitions (used to bound solver memory).
 func (s *Solver) Restart() error {
 	s.Close()
+	s.Broken = false
 	return s.start()
 }
 
@@ -371,6 +373,9 @@ func (s *Solver) readResult() Result {
 			s.Errors++
 			s.LastError = l
 			bad = true
+			if strings.Contains(l, "canceled") || strings.Contains(l, "resource limit") {
+				s.Broken = true
+			}
 		}
 	}
 	if bad {
